@@ -21,12 +21,12 @@ RUNS = {"quick": 1500, "thorough": 30000}
 CHUNK = {"quick": 10, "thorough": 50}
 OPS = ["view:settings", "view:settings_by_index", "view:raw_settings", "view:raw_settings_by_index", "map:name:pretty",
        "map:const:raw", "map:enum:noparse", "map:name:noparse", "map:const:noparse", "rsa_session", "props", "repr", "c2http:rsa", "c2http:aes_rand", "c2http:aes_hmac",
-       "c2http:aes_noverify", "client_dry", "client_dry:args", "dunders", "profile_text", "profile_dict", "transform_get", "transform_post",
+       "c2http:aes_noverify", "client_dry", "client_dry:args", "client_dry:defaults", "dunders", "profile_text", "profile_dict", "transform_get", "transform_post",
        "transform_server", "transform_get_noreq", "transform_post_noreq", "recover_roundtrip", "iter_recover", "mutate_attempt"]
 PROBES = ["op_" + o.replace(":", "_") for o in OPS] + ["real_sample_config", "generated_config", "history_len>=10",
                                                         "consumer_then_observe", "pair_sweep", "pivot_config_without_domains", "sample_constructed_full",
                                                         "sample_constructed_bare", "companion_observed_first", "damaged_config_views_raise"]
-RULE = ("systematic population: every ordered pair of the 29 operation kinds (view access, settings_map variants, derived "
+RULE = ("systematic population: every ordered pair of the 30 operation kinds (view access, settings_map variants, derived "
         "properties, repr, C2Http with each key variant, HttpBeaconClient dry run, profile generation text/dict, "
         "transform/recover/iter_recover_http on decoders built so far, mutation attempts) followed by a final observation, "
         "on 3 generated configurations (quick) / 8 (thorough), triples in thorough on one configuration; seeded population: "
@@ -392,6 +392,17 @@ def run_op(op: str, st: State, seams) -> str:
         return repr((c.beacon_id, c.aes_rand, c.metadata.dumps(), c.base_url, c.get_uri, c.task_url, c.submit_uri, c.callback_url,
                      c.sleeptime, c.jitter, c.user_agent, c.host_header, c.get_verb, c.submit_verb, c.domain, c.port, c.scheme,
                      _canon_c2http(c.c2http), repr(c._initial_get_request()), repr(c._initial_post_request())))
+    if op == "client_dry:defaults":
+        # names, process and internal address left to the client: it draws them from a generator seeded with the beacon id, so
+        # the set-up for one id is the same every time
+        out = []
+        for bid in (4242, 1234566, 86, 2 ** 31 - 2):
+            c = HttpBeaconClient()
+            c.run(bc, dry_run=True, beacon_id=bid, pid=7)
+            out.append((c.beacon_id, c.aes_rand, c.metadata.dumps(), c.user, c.computer, c.process, str(c.internal_ip), c.base_url,
+                        c.get_uri, c.task_url, c.callback_url, c.domain))
+        st.decoders.append(c.c2http)
+        return repr(out)
     if op == "client_dry":
         c = HttpBeaconClient()
         c.run(bc, dry_run=True, beacon_id=4242, user="u", computer="c", process="p.exe", internal_ip="10.0.0.1", arch="x64", pid=7)
@@ -514,7 +525,7 @@ def execute(plan: dict) -> Result:
                 if built_consumer:
                     res.probes["consumer_then_observe"] += 1
                     res.nontrivial = True
-                if op.startswith("c2http") or op in ("client_dry", "client_dry:args", "rsa_session", "profile_text", "profile_dict") or op.startswith("transform") \
+                if op.startswith("c2http") or op in ("client_dry", "client_dry:args", "client_dry:defaults", "rsa_session", "profile_text", "profile_dict") or op.startswith("transform") \
                         or op in ("recover_roundtrip", "iter_recover"):
                     built_consumer = True
                 if op == "mutate_attempt" and "ACCEPTED" in got:
@@ -573,7 +584,7 @@ def execute(plan: dict) -> Result:
 
 def _first_consumer(hist):
     for op in hist:
-        if op.startswith("c2http") or op in ("client_dry", "client_dry:args", "rsa_session", "profile_text", "profile_dict") or op.startswith("transform") or \
+        if op.startswith("c2http") or op in ("client_dry", "client_dry:args", "client_dry:defaults", "rsa_session", "profile_text", "profile_dict") or op.startswith("transform") or \
                 op in ("recover_roundtrip", "iter_recover"):
             return "after:" + op.split(":")[0]
     return "after:reads_only"
